@@ -11,7 +11,8 @@ PY = "PYTHONHASHSEED=0 /venv/bin/python run.py"
 CHECKS = {
     # id: (category, engine, technique, text, note, design_ref)
     "C01": ("exploration", "enum", "bounded-exhaustive input enumeration against an independent E5 reference codec",
-            "Every typed value of a boundary-set family (all 14 leaf types x element counts at every length-byte boundary x boundary values x "
+            "Every typed value of a boundary-set family (all 14 leaf types x element counts at every length-byte boundary and one with three pairwise "
+            "different length bytes x boundary values x "
             "constructor input forms, all 256 byte values of text/binary, every float exponent x boundary mantissas, all list trees up to the "
             "stated depth/branching) is encoded by the real variables API and compared byte for byte with an independent E5 encoder; the bytes "
             "are decoded into fresh and reused objects and at an offset, and position and value compared. Exhaustive over the stated family, "
@@ -51,23 +52,29 @@ CHECKS = {
             "bytes, S1F1, a user-callback primary, timer expiry} up to the exhaustive depth, then BFS over canonical states, is executed on "
             "fresh real GemHostHandler and GemEquipmentHandler objects (real HsmsProtocol underneath). Invariants: COMMUNICATING only after a "
             "completed S1F13/S1F14 exchange with COMMACK 0 on the current link (and a valid exchange does establish), link loss/disable leave "
-            "it, no callback runs while not communicating, and from every reached state a retry S1F13 appears within T3 + delay (bounded "
-            "liveness probe in virtual time).",
+            "it, no callback runs while not communicating, from every reached state a retry S1F13 appears within T3 + delay (bounded "
+            "liveness probe in virtual time), and no retry is sent before previous-attempt-failure + delay; run in two timer configurations "
+            "(T3 > delay, and 2 x T3 < delay so that timers of abandoned attempts can still be pending).",
             "Default schedule per event; virtual timers fire only through the explicit tick event; a stale S1F14 of the same link may or may not establish.",
             "DESIGN.md 3/C07"),
-    "C08": ("model_checking", "vrt+hbfs", "exhaustive enumeration of inbound message headers/bodies executed on real handlers (depth-1..n histories from COMMUNICATING)",
+    "C08": ("model_checking", "vrt+hbfs", "exhaustive enumeration of inbound message headers/bodies and short histories executed on real handlers + delay-bounded schedule exploration of the reply path",
             "Real host and equipment handlers are driven to COMMUNICATING under the virtual runtime; every stream x function x W header "
             "(boundary function set quick, all 65 536 thorough), every catalogued function with well-formed/truncated/wrong-type/trailing bodies "
             "(forward and reverse order) and user callbacks that reply / raise / return None are injected; the frames written are parsed by the "
             "reference codec: exactly one reply with the request's system bytes (function+1 or F0 abort), S9F5 with the exact header for "
-            "functions without callback, nothing for W=0.",
+            "functions without callback, nothing for W=0. Histories in which the handler's own requests were answered or timed out first and the "
+            "peer's primary reuses their system bytes, and 1-3 primaries under every schedule with <= 2 (3) delays at line granularity of the "
+            "dispatcher / send path, must give the same answer.",
             "Reply bodies are not constrained beyond S9F5's MHEAD; histories are batches of up to 128 messages per fresh handler.",
             "DESIGN.md 3/C08"),
-    "C11": ("model_checking", "vrt+hbfs", "explicit-state history BFS on a real GemEquipmentHandler per configuration",
+    "C11": ("model_checking", "vrt+hbfs", "explicit-state history BFS on a real GemEquipmentHandler per configuration + delay-bounded schedule exploration of host request vs operator switch",
             "For each of up to 48 configurations (4 initial control states x LOCAL/REMOTE x host answers the attempt-online probe with "
             "S1F2 / S1F0 / not at all x control-state events linked+enabled or not) every history of operator switches, S1F15, S1F17, S1F3[1002] "
             "and probe time-out up to the exhaustive depth, then BFS over canonical states, runs on a fresh real handler in COMMUNICATING; "
-            "state, S1F16/S1F18 acknowledge codes, emitted S6F11 CEIDs and SVID 1002 are compared with the E30 reference table after every event.",
+            "state, S1F16/S1F18 acknowledge codes, emitted S6F11 CEIDs and SVID 1002 are compared with the E30 reference table after every event. "
+            "Six pairs (S1F15/S1F17 on the dispatcher thread x an operator switch on an application thread) are explored under every schedule with "
+            "<= 1 (2) delays at line granularity of the state-machine engine: state, acknowledge code and operator outcome must be those of one "
+            "of the two serial orders.",
             "Attempt-online failure may land in HOST or EQUIPMENT OFF-LINE; default schedule; quick tier drops the events-off x non-answering-host configurations.",
             "DESIGN.md 3/C11"),
     "C12": ("model_checking", "vrt+hbfs", "explicit-state history BFS with a reference table model and per-state probes",
@@ -88,26 +95,30 @@ CHECKS = {
             "Round trip Item.from_sml(item.to_sml()) over the C14 leaf families, all 256 single bytes and every string up to length 3 (4 thorough) "
             "over an 18-character awkward alphabet for A and J, float exponent sweeps and all list trees to the bound; every token string up to "
             "length 5 (6 thorough) over a 12-token alphabet and every single-token deletion/insertion/replacement of valid texts is parsed under a "
-            "watchdog: the parser must terminate and must raise whenever the reference recogniser finds a missing closing bracket or an unknown type.",
+            "watchdog: the parser must terminate and must raise whenever the reference recogniser finds a missing closing bracket or an unknown type; "
+            "every single-character deletion, quote insertion and proper prefix of the valid texts must terminate.",
             "Rejection is demanded only for the two defects the statement names; watchdog is 5 s wall-clock per parse.", "DESIGN.md 3/C15"),
     "C16": ("exploration", "enum", "bounded-exhaustive enumeration against an independent E4 block codec, all merges, all single-byte corruptions",
             "Body lengths at every 244-byte boundary (0,1,2,243..245,487..489,732, 255 blocks, 32 767 blocks thorough) x header fields at 1 (2) "
             "deviations: blocks compared byte for byte with ref/e4.py and decoded back field by field; every interleaving of the block sequences of "
             "2-3 messages with distinct system bytes is fed to the reassembly of a real SecsIProtocol (exactly-once, header, body); every byte "
-            "position x every other value of encoded blocks with 0/1/244 data bytes must never decode to a valid block.",
+            "position x every other value of encoded blocks with 0/1/244 data bytes (checksum above and below 0x100) and every other 16-bit value "
+            "of the checksum field must never decode to a valid block.",
             "Reassembly is driven through Protocol._dispatch_block (the receiver thread's seam); blocks of one message stay in order.", "DESIGN.md 3/C16"),
     "C03": ("exploration", "enum", "bounded-exhaustive enumeration of structure-conforming values per catalogued function + complete catalogue relation check",
             "For all catalogued functions the structure is read by an independent SFDL reader; the default value and every value at one "
             "deviation (two thorough) - open list lengths 0/2/3, each allowed alternative type of each dynamic leaf as typed variable (bytes "
             "compared with the reference codec) and as plain python value (read back unchanged), count limits - is built, encoded, wrapped in "
             "a message carrying only S/F and decoded through StreamsFunctions.decode (same class, equal value, same bytes). The YAML "
-            "catalogue vs class attributes, F/F+1 pairing, reply flags, mirrored directions and the lookup of all 128x256 numbers are enumerated completely.",
+            "catalogue vs class attributes, F/F+1 pairing, reply flags, mirrored directions and the lookup of all 128x256 numbers are enumerated completely; the flags of a constructed function object "
+            "(the ones the protocol layers read) are compared with the declaration; for every function, update() of one container must leave older "
+            "and newer default containers on the catalogue class.",
             "Values beyond one/two deviations from the default are covered by the small-scope hypothesis; over-long values are observed, not demanded to be rejected.",
             "DESIGN.md 3/C03"),
     "C19": ("exploration", "enum", "bounded-exhaustive enumeration of definition trees against an independent reader of the documented rules",
             "Every definition tree up to depth 3 / width 3 (bounded child pools) over four data item names with optional list names is rendered in "
             "2-4 whitespace styles and with a comment at every line end; shape (record / open array / item), key order and key names of "
-            "functions.generate(text) are compared with ref/sfdl.py; every closing bracket deleted and every item name replaced by an unknown one "
+            "functions.generate(text) are compared with ref/sfdl.py; every closing bracket deleted or replaced by an opening one and every item name replaced by an unknown one "
             "must be rejected; the shipped definitions are checked the same way.",
             "Sibling keys kept distinct; an unnamed list around a single named list, empty lists and trailing text are not generated (undocumented).",
             "DESIGN.md 3/C19"),
@@ -115,7 +126,10 @@ CHECKS = {
             "Frames: header field boundary sets (1 and 2 deviations) x all nine STypes x body lengths at 255/256/65535/65536 (2^20 thorough) compared "
             "byte for byte with ref/e37.py and decoded back. Streams: 12 sequences of 1-3 frames are fed to a real SELECTED HsmsProtocol for every "
             "set of <= 2 (3) cut positions, the all-single-bytes partition and all 2^13 partitions of a 14-byte frame; deliveries and control "
-            "replies must equal those of the uncut stream. Coalesced arrival is explored over all schedules with <= K delays at line granularity.",
+            "replies must equal those of the uncut stream. Coalesced arrival is explored over all schedules with <= K delays at line granularity. "
+            "A real ByteQueue alone (one producer, one consumer framing like the HSMS and SECS-I receivers) is explored under every schedule with "
+            "<= 2 (3) delays where every bytecode instruction of ByteQueue is a scheduling point. Outbound: for packet sizes 5/16/64 every frame "
+            "size up to 3 packets + 2 and, for the shipped 1 MiB, sizes around 1 (2, 3) MiB, the bytes given to send_data equal the reference frame.",
             "LoopConnection delivers segments from its receiver thread like TcpConnection (<=1024-byte reads); stepwise mode uses the default schedule.",
             "DESIGN.md 3/C04"),
     "C18": ("model_checking", "vrt+explore", "explicit-state search over generated machine definitions x transition sequences + delay-bounded schedule exploration of concurrent triggers",
@@ -127,10 +141,10 @@ CHECKS = {
             "outcome must equal one of the two sequential orders.",
             "Internal vs external transition semantics both accepted; handler exceptions other than the engine's own are not in scope.", "DESIGN.md 3/C18"),
     "C09": ("fault_enumeration", "vrt+explore", "exhaustive enumeration of loss points (every byte offset) on the real protocol + delay-bounded schedule exploration of the real TCP connection classes over a kernel model",
-            "Level 1: for each session state (NOT SELECTED, SELECTED, SELECTED with an open transaction) x inbound stream x every byte offset (x every "
+            "Level 1: for each session state (NOT SELECTED, SELECTED, SELECTED with an open transaction) x inbound stream (data, linktest, Separate.req and mixtures) x every byte offset (x every "
             "two-segment split thorough) the prefix is delivered to a real HsmsProtocol, then the peer closes or disable() is called; then a new "
             "connection must select and deliver its first message; any step that does not complete in virtual time is a deadlock/livelock verdict of "
-            "the runtime. Level 2: the real TcpServerConnection/TcpClientConnection run over a virtual kernel; five enable/disable/connect/close "
+            "the runtime. Level 2: the real TcpServerConnection/TcpClientConnection run over a virtual kernel; six enable/disable/connect/close/Separate.req "
             "scripts are explored under every schedule with <= K delays (every line of tcp_*connection.py is a scheduling point): enable()/disable() "
             "return, no socket is left open, a later enable() works.",
             "The kernel is a model (mc/vnet.py); hangs are detected up to the step and virtual-time horizons; spin-waits via repeated backward jumps.",
@@ -138,12 +152,15 @@ CHECKS = {
     "C10": ("fault_enumeration", "vrt+explore", "exhaustive enumeration of environment answers (short write / would-block / broken pipe / not writable) up to F deviations",
             "The real TcpConnection.send_data (server and client class) and HsmsProtocol's 1 MiB packet split above it write to a virtual socket; "
             "every assignment of answers with <= F deviations from 'everything accepted' is executed for message sizes 1 byte .. 2 MiB+5 and 1-2 "
-            "sends; the bytes the peer received must parse as the messages in order, complete where success was reported, a prefix where failure was.",
+            "sends; the bytes the peer received must parse as the messages in order, complete where success was reported, a prefix where failure was "
+            "(decided by backtracking over prefix lengths), and the call must return a bool. A further answer - one byte accepted while the peer "
+            "half-closes - is explored together with one scheduling delay (the receiver thread closes the socket under the sender).",
             "Kernel answers are a model; F = 2 quick / 3 thorough deviations per execution.", "DESIGN.md 3/C10"),
     "C17": ("model_checking", "vrt+explore", "stateless delay- and cut-bounded exploration of two real SecsIProtocol endpoints on a virtual line + exhaustive corruption positions",
             "Two real SecsIProtocol objects (host, equipment) joined by an in-memory line; a message of 1-3 blocks is sent, answered by the other "
             "side and followed by another; every schedule with <= K delays (lines of the handshake code, byte queue and dispatcher) and <= C "
-            "chunking deviations per execution, the all-single-bytes chunking, and one corrupted byte at every header/data/checksum position "
+            "chunking deviations per execution, the all-single-bytes chunking (also paced: each chunk arrives while the receiver already waits), "
+            "and one corrupted byte at every header/data/checksum position "
             "of a block are executed. Oracle: transcript grammar (ENQ, EOT, block, ACK|NAK), success => delivered once with identical header and "
             "body, corrupted => NAK, not delivered, failure reported, following messages still pass, nothing hangs.",
             "Only one side transmits at a time (the statement's assumption); length-byte corruption is a recorded known finding (no T1/T2).",
@@ -152,10 +169,11 @@ CHECKS = {
             "A real GemHostHandler and a real GemEquipmentHandler (each on a real HsmsProtocol) are joined by an in-memory link; for every "
             "configuration (active side x enable order x equipment initial control state) the script - both reach COMMUNICATING within "
             "T5+T6+2(T3+delay) virtual seconds, eleven host service calls compared with the equipment's own tables, subscribe + trigger => exactly "
-            "one collection_event_received, go offline/online, remote command, restart of the host, restart of the equipment, all again - is "
+            "one collection_event_received, clear all + subscribe again with a new report + trigger, go offline/online, remote command, restart of the host, restart of the equipment, all again - is "
             "executed for every assignment of <= 1 segment cut; the start-up handshake (and one services phase, thorough: the full script) is "
-            "explored under every schedule with <= 1 delay at the runtime's operations.",
-            "Link connect latency is zero; no line-level scheduling points (13+ threads); K = 1.", "DESIGN.md 3/C20"),
+            "explored under every schedule with <= 1 delay at the runtime's operations and at every line of the waiter registration "
+            "(GemHandler.waitfor_communicating / _on_state_communicating).",
+            "Link connect latency is zero; line-level scheduling points only in the waiter registration (13+ threads); K = 1.", "DESIGN.md 3/C20"),
 }
 
 NOT_YET = "check not built yet in this revision of /verif (see DESIGN.md section 6 build order)"
